@@ -53,41 +53,49 @@ package exec
 // ---------- exec/result.go ----------
 
 //@ func Bool.String(b) (r)
+//@   pure
 //@   property C04
 //@   uses values
 //@   ensures r == toStr(VBool(b))
 
 //@ func Bool.Number(b) (r)
+//@   pure
 //@   property C04
 //@   uses values
 //@   ensures r == toNum(VBool(b))
 
 //@ func Bool.Bool(b) (r)
+//@   pure
 //@   property C04
 //@   uses values
 //@   ensures r == toBool(VBool(b))
 
 //@ func Number.String(n) (r)
+//@   pure
 //@   property C04
 //@   uses values
 //@   ensures r == toStr(VNum(n))
 
 //@ func Number.Number(n) (r)
+//@   pure
 //@   property C04
 //@   uses values
 //@   ensures r == toNum(VNum(n))
 
 //@ func Number.Bool(n) (r)
+//@   pure
 //@   property C04
 //@   uses values
 //@   ensures r == toBool(VNum(n))
 
 //@ func String.String(n) (r)
+//@   pure
 //@   property C04
 //@   uses values
 //@   ensures r == toStr(VStr(n))
 
 //@ func String.Bool(n) (r)
+//@   pure
 //@   property C04
 //@   uses values
 //@   ensures r == toBool(VStr(n))
@@ -618,6 +626,7 @@ package exec
 //@   ensures r == isXmlSp(c)
 
 //@ func trimXmlSpace(s) (r)
+//@   pure
 //@   property C04 C07 C13 C15
 //@   uses strnum
 //@   ensures r == xmlTrim(s)                                                  @xml-whitespace-only
@@ -633,6 +642,7 @@ package exec
 //@     decreases end - start
 
 //@ func isNumberSyntax(s) (r)
+//@   pure
 //@   property C04 C13 C15
 //@   uses strnum
 //@   ensures r == numSyntax(s)                                                @xpath-number-syntax
@@ -647,11 +657,13 @@ package exec
 //@     decreases len(s) - i
 
 //@ func getStringNumber(str) (r)
+//@   pure
 //@   property C04 C05 C06 C13 C15
 //@   uses strnum
 //@   ensures r == xpnum(str)                                                  @xpath-number
 
 //@ func String.Number(n) (r)
+//@   pure
 //@   property C04
 //@   uses strnum
 //@   ensures r == toNum(VStr(n))
@@ -742,12 +754,14 @@ package exec
 //@   ensures sbstr(deref(buf)) == old(sbstr(deref(buf))) + strval(c)          @string-value
 
 //@ func GetCursorString(c) (r)
+//@   pure
 //@   property C04 C05 C13 C15
 //@   uses strval strbuilder
 //@   requires c != nil
 //@   ensures r == strval(c)                                                   @string-value
 
 //@ func NodeSet.String(n) (r)
+//@   pure
 //@   property C04 C13 C15
 //@   uses strval nodeset
 //@   requires nodes(n)
@@ -759,12 +773,14 @@ package exec
 //@     decreases len(n) - #k
 
 //@ func NodeSet.Number(n) (r)
+//@   pure
 //@   property C04 C13 C15
 //@   uses strval nodeset strnum
 //@   requires nodes(n)
 //@   ensures r == toNum(VSet(n))
 
 //@ func NodeSet.Bool(n) (r)
+//@   pure
 //@   property C04
 //@   uses values
 //@   ensures r == toBool(VSet(n))
@@ -788,7 +804,8 @@ package exec
 //@ macro B = deref(expr.BSR)
 //@ macro CTX = expr.lex, context.root, old(absv(context.result)), old(context.contextPosition), context.ContextSettings
 //@ macro HPRE = context != nil && expr != nil && expr.BSR != nil && wf(expr.BSR) && resok(context.result) && wf(context.result)
-//@ macro HPOST = (err != nil) == semerr($B$, $CTX$) && (err == nil ==> absv(context.result) == sem($B$, $CTX$) && resok(context.result) && wf(context.result))
+//@ macro HPOSTE = (err != nil) == semerr($B$, $CTX$)
+//@ macro HPOSTV = err == nil ==> absv(context.result) == sem($B$, $CTX$) && resok(context.result) && wf(context.result)
 
 //@ extern slot.Label.Slot(l) (r)
 //@   pure
@@ -809,7 +826,8 @@ package exec
 //@   uses sem
 //@   requires fn == handlerFn(nt($B$)) && $HPRE$
 //@   modifies context.result
-//@   ensures $HPOST$
+//@   ensures $HPOSTE$                                                         @error-iff-specified
+//@   ensures $HPOSTV$                                                         @value-is-Sem
 
 //@ func exprContext.copy(e) (r)
 //@   property C13 C15 C18 C02
@@ -821,14 +839,16 @@ package exec
 //@   uses sem
 //@   requires $HPRE$
 //@   modifies context.result
-//@   ensures $HPOST$
+//@   ensures $HPOSTE$                                                         @error-iff-specified
+//@   ensures $HPOSTV$                                                         @value-is-Sem
 
 //@ func execChildren(context, expr) (err)
 //@   property C08 C13 C15 C18
 //@   uses sem
 //@   requires $HPRE$ && handlerFn(nt($B$)) == nil
 //@   modifies context.result
-//@   ensures $HPOST$
+//@   ensures $HPOSTE$                                                         @error-iff-specified
+//@   ensures $HPOSTV$                                                         @value-is-Sem
 //@   loop 0
 //@     invariant #k == 0 - 1
 //@     decreases nntc($B$) - #k
@@ -882,44 +902,308 @@ package exec
 //@   uses sem
 //@   requires $HPRE$ && nt($B$) == NT_UnaryExprNegate
 //@   modifies context.result
-//@   ensures $HPOST$
+//@   ensures $HPOSTE$                                                         @error-iff-specified
+//@   ensures $HPOSTV$                                                         @value-is-Sem
 
 //@ func execAdditiveExprAdd(context, expr) (err)
 //@   property C06 C13 C15
 //@   uses sem
 //@   requires $HPRE$ && nt($B$) == NT_AdditiveExprAdd
 //@   modifies context.result
-//@   ensures $HPOST$
+//@   ensures $HPOSTE$                                                         @error-iff-specified
+//@   ensures $HPOSTV$                                                         @value-is-Sem
 
 //@ func execAdditiveExprSubtract(context, expr) (err)
 //@   property C06 C13 C15
 //@   uses sem
 //@   requires $HPRE$ && nt($B$) == NT_AdditiveExprSubtract
 //@   modifies context.result
-//@   ensures $HPOST$
+//@   ensures $HPOSTE$                                                         @error-iff-specified
+//@   ensures $HPOSTV$                                                         @value-is-Sem
 
 //@ func execMultiplicativeExprMultiply(context, expr) (err)
 //@   property C06 C13 C15
 //@   uses sem
 //@   requires $HPRE$ && nt($B$) == NT_MultiplicativeExprMultiply
 //@   modifies context.result
-//@   ensures $HPOST$
+//@   ensures $HPOSTE$                                                         @error-iff-specified
+//@   ensures $HPOSTV$                                                         @value-is-Sem
 
 //@ func execMultiplicativeExprDivide(context, expr) (err)
 //@   property C06 C13 C15
 //@   uses sem
 //@   requires $HPRE$ && nt($B$) == NT_MultiplicativeExprDivide
 //@   modifies context.result
-//@   ensures $HPOST$
+//@   ensures $HPOSTE$                                                         @error-iff-specified
+//@   ensures $HPOSTV$                                                         @value-is-Sem
 
 //@ func execMultiplicativeExprMod(context, expr) (err)
 //@   property C06 C13 C15
 //@   uses sem
 //@   requires $HPRE$ && nt($B$) == NT_MultiplicativeExprMod
 //@   modifies context.result
-//@   ensures $HPOST$
+//@   ensures $HPOSTE$                                                         @error-iff-specified
+//@   ensures $HPOSTV$                                                         @value-is-Sem
 
 //@ extern math.Mod(x, y) (r)
 //@   pure
 //@   uses num
 //@   ensures r == fmod(x, y)
+
+// ---------- comparisons (exec/contextfn_comparisons.go): XPath 1.0 section 3.4 ----------
+
+//@ func execEqualityExprEqual(context, expr) (err)
+//@   property C05 C13 C15
+//@   uses sem strbuilder
+//@   requires $HPRE$ && nt($B$) == NT_EqualityExprEqual
+//@   modifies context.result
+//@   ensures $HPOSTE$                                                         @error-iff-specified
+//@   ensures $HPOSTV$                                                         @value-is-Sem
+//@   loop 0
+//@     invariant nodes(leftNodeSet) && nodes(rightNodeSet)
+//@     invariant 0 - 1 <= #k && #k < len(leftNodeSet) || (len(leftNodeSet) == 0 && #k == 0 - 1)
+//@     invariant forall i Int, j Int :: 0 <= i && i <= #k && 0 <= j && j < len(rightNodeSet) ==> !cmpStr(0, strval(leftNodeSet[i]), strval(rightNodeSet[j]))
+//@     decreases len(leftNodeSet) - #k
+//@   loop 1
+//@     invariant nodes(leftNodeSet) && nodes(rightNodeSet)
+//@     invariant 0 - 1 <= #k && #k < len(rightNodeSet) || (len(rightNodeSet) == 0 && #k == 0 - 1)
+//@     invariant 0 - 1 <= #outer && #outer + 1 < len(leftNodeSet)
+//@     invariant forall i Int, j Int :: 0 <= i && i <= #outer && 0 <= j && j < len(rightNodeSet) ==> !cmpStr(0, strval(leftNodeSet[i]), strval(rightNodeSet[j]))
+//@     invariant forall j Int :: 0 <= j && j <= #k ==> !cmpStr(0, strval(leftNodeSet[#outer + 1]), strval(rightNodeSet[j]))
+//@     decreases len(rightNodeSet) - #k
+//@   loop 2
+//@     invariant nodes(leftNodeSet) && nodes(rightNodeSet)
+//@     invariant 0 - 1 <= #k && #k < len(rightNodeSet) || (len(rightNodeSet) == 0 && #k == 0 - 1)
+//@     invariant forall j Int :: 0 <= j && j <= #k ==> !cmpNum(0, leftNumber, xpnum(strval(rightNodeSet[j])))
+//@     decreases len(rightNodeSet) - #k
+//@   loop 3
+//@     invariant nodes(leftNodeSet) && nodes(rightNodeSet)
+//@     invariant 0 - 1 <= #k && #k < len(leftNodeSet) || (len(leftNodeSet) == 0 && #k == 0 - 1)
+//@     invariant forall i Int :: 0 <= i && i <= #k ==> !cmpNum(0, xpnum(strval(leftNodeSet[i])), rightNumber)
+//@     decreases len(leftNodeSet) - #k
+//@   loop 4
+//@     invariant nodes(leftNodeSet) && nodes(rightNodeSet)
+//@     invariant 0 - 1 <= #k && #k < len(rightNodeSet) || (len(rightNodeSet) == 0 && #k == 0 - 1)
+//@     invariant forall j Int :: 0 <= j && j <= #k ==> !cmpStr(0, leftString, strval(rightNodeSet[j]))
+//@     decreases len(rightNodeSet) - #k
+//@   loop 5
+//@     invariant nodes(leftNodeSet) && nodes(rightNodeSet)
+//@     invariant 0 - 1 <= #k && #k < len(leftNodeSet) || (len(leftNodeSet) == 0 && #k == 0 - 1)
+//@     invariant forall i Int :: 0 <= i && i <= #k ==> !cmpStr(0, strval(leftNodeSet[i]), rightString)
+//@     decreases len(leftNodeSet) - #k
+
+//@ func execEqualityExprNotEqual(context, expr) (err)
+//@   property C05 C13 C15
+//@   uses sem strbuilder
+//@   requires $HPRE$ && nt($B$) == NT_EqualityExprNotEqual
+//@   modifies context.result
+//@   ensures $HPOSTE$                                                         @error-iff-specified
+//@   ensures $HPOSTV$                                                         @value-is-Sem
+//@   loop 0
+//@     invariant nodes(leftNodeSet) && nodes(rightNodeSet)
+//@     invariant 0 - 1 <= #k && #k < len(leftNodeSet) || (len(leftNodeSet) == 0 && #k == 0 - 1)
+//@     invariant forall i Int, j Int :: 0 <= i && i <= #k && 0 <= j && j < len(rightNodeSet) ==> !cmpStr(1, strval(leftNodeSet[i]), strval(rightNodeSet[j]))
+//@     decreases len(leftNodeSet) - #k
+//@   loop 1
+//@     invariant nodes(leftNodeSet) && nodes(rightNodeSet)
+//@     invariant 0 - 1 <= #k && #k < len(rightNodeSet) || (len(rightNodeSet) == 0 && #k == 0 - 1)
+//@     invariant 0 - 1 <= #outer && #outer + 1 < len(leftNodeSet)
+//@     invariant forall i Int, j Int :: 0 <= i && i <= #outer && 0 <= j && j < len(rightNodeSet) ==> !cmpStr(1, strval(leftNodeSet[i]), strval(rightNodeSet[j]))
+//@     invariant forall j Int :: 0 <= j && j <= #k ==> !cmpStr(1, strval(leftNodeSet[#outer + 1]), strval(rightNodeSet[j]))
+//@     decreases len(rightNodeSet) - #k
+//@   loop 2
+//@     invariant nodes(leftNodeSet) && nodes(rightNodeSet)
+//@     invariant 0 - 1 <= #k && #k < len(rightNodeSet) || (len(rightNodeSet) == 0 && #k == 0 - 1)
+//@     invariant forall j Int :: 0 <= j && j <= #k ==> !cmpNum(1, leftNumber, xpnum(strval(rightNodeSet[j])))
+//@     decreases len(rightNodeSet) - #k
+//@   loop 3
+//@     invariant nodes(leftNodeSet) && nodes(rightNodeSet)
+//@     invariant 0 - 1 <= #k && #k < len(leftNodeSet) || (len(leftNodeSet) == 0 && #k == 0 - 1)
+//@     invariant forall i Int :: 0 <= i && i <= #k ==> !cmpNum(1, xpnum(strval(leftNodeSet[i])), rightNumber)
+//@     decreases len(leftNodeSet) - #k
+//@   loop 4
+//@     invariant nodes(leftNodeSet) && nodes(rightNodeSet)
+//@     invariant 0 - 1 <= #k && #k < len(rightNodeSet) || (len(rightNodeSet) == 0 && #k == 0 - 1)
+//@     invariant forall j Int :: 0 <= j && j <= #k ==> !cmpStr(1, leftString, strval(rightNodeSet[j]))
+//@     decreases len(rightNodeSet) - #k
+//@   loop 5
+//@     invariant nodes(leftNodeSet) && nodes(rightNodeSet)
+//@     invariant 0 - 1 <= #k && #k < len(leftNodeSet) || (len(leftNodeSet) == 0 && #k == 0 - 1)
+//@     invariant forall i Int :: 0 <= i && i <= #k ==> !cmpStr(1, strval(leftNodeSet[i]), rightString)
+//@     decreases len(leftNodeSet) - #k
+
+//@ func execRelationalExprLessThan(context, expr) (err)
+//@   property C05 C13 C15
+//@   uses sem strbuilder
+//@   requires $HPRE$ && nt($B$) == NT_RelationalExprLessThan
+//@   modifies context.result
+//@   ensures $HPOSTE$                                                         @error-iff-specified
+//@   ensures $HPOSTV$                                                         @value-is-Sem
+//@   loop 0
+//@     invariant nodes(leftNodeSet) && nodes(rightNodeSet)
+//@     invariant 0 - 1 <= #k && #k < len(leftNodeSet) || (len(leftNodeSet) == 0 && #k == 0 - 1)
+//@     invariant forall i Int, j Int :: 0 <= i && i <= #k && 0 <= j && j < len(rightNodeSet) ==> !cmpStr(2, strval(leftNodeSet[i]), strval(rightNodeSet[j]))
+//@     decreases len(leftNodeSet) - #k
+//@   loop 1
+//@     invariant nodes(leftNodeSet) && nodes(rightNodeSet)
+//@     invariant 0 - 1 <= #k && #k < len(rightNodeSet) || (len(rightNodeSet) == 0 && #k == 0 - 1)
+//@     invariant 0 - 1 <= #outer && #outer + 1 < len(leftNodeSet)
+//@     invariant forall i Int, j Int :: 0 <= i && i <= #outer && 0 <= j && j < len(rightNodeSet) ==> !cmpStr(2, strval(leftNodeSet[i]), strval(rightNodeSet[j]))
+//@     invariant forall j Int :: 0 <= j && j <= #k ==> !cmpStr(2, strval(leftNodeSet[#outer + 1]), strval(rightNodeSet[j]))
+//@     decreases len(rightNodeSet) - #k
+//@   loop 2
+//@     invariant nodes(leftNodeSet) && nodes(rightNodeSet)
+//@     invariant 0 - 1 <= #k && #k < len(rightNodeSet) || (len(rightNodeSet) == 0 && #k == 0 - 1)
+//@     invariant forall j Int :: 0 <= j && j <= #k ==> !cmpNum(2, leftNumber, xpnum(strval(rightNodeSet[j])))
+//@     decreases len(rightNodeSet) - #k
+//@   loop 3
+//@     invariant nodes(leftNodeSet) && nodes(rightNodeSet)
+//@     invariant 0 - 1 <= #k && #k < len(leftNodeSet) || (len(leftNodeSet) == 0 && #k == 0 - 1)
+//@     invariant forall i Int :: 0 <= i && i <= #k ==> !cmpNum(2, xpnum(strval(leftNodeSet[i])), rightNumber)
+//@     decreases len(leftNodeSet) - #k
+//@   loop 4
+//@     invariant nodes(leftNodeSet) && nodes(rightNodeSet)
+//@     invariant 0 - 1 <= #k && #k < len(rightNodeSet) || (len(rightNodeSet) == 0 && #k == 0 - 1)
+//@     invariant forall j Int :: 0 <= j && j <= #k ==> !cmpStr(2, leftString, strval(rightNodeSet[j]))
+//@     decreases len(rightNodeSet) - #k
+//@   loop 5
+//@     invariant nodes(leftNodeSet) && nodes(rightNodeSet)
+//@     invariant 0 - 1 <= #k && #k < len(leftNodeSet) || (len(leftNodeSet) == 0 && #k == 0 - 1)
+//@     invariant forall i Int :: 0 <= i && i <= #k ==> !cmpStr(2, strval(leftNodeSet[i]), rightString)
+//@     decreases len(leftNodeSet) - #k
+
+//@ func execRelationalExprLessThanOrEqual(context, expr) (err)
+//@   property C05 C13 C15
+//@   uses sem strbuilder
+//@   requires $HPRE$ && nt($B$) == NT_RelationalExprLessThanOrEqual
+//@   modifies context.result
+//@   ensures $HPOSTE$                                                         @error-iff-specified
+//@   ensures $HPOSTV$                                                         @value-is-Sem
+//@   loop 0
+//@     invariant nodes(leftNodeSet) && nodes(rightNodeSet)
+//@     invariant 0 - 1 <= #k && #k < len(leftNodeSet) || (len(leftNodeSet) == 0 && #k == 0 - 1)
+//@     invariant forall i Int, j Int :: 0 <= i && i <= #k && 0 <= j && j < len(rightNodeSet) ==> !cmpStr(3, strval(leftNodeSet[i]), strval(rightNodeSet[j]))
+//@     decreases len(leftNodeSet) - #k
+//@   loop 1
+//@     invariant nodes(leftNodeSet) && nodes(rightNodeSet)
+//@     invariant 0 - 1 <= #k && #k < len(rightNodeSet) || (len(rightNodeSet) == 0 && #k == 0 - 1)
+//@     invariant 0 - 1 <= #outer && #outer + 1 < len(leftNodeSet)
+//@     invariant forall i Int, j Int :: 0 <= i && i <= #outer && 0 <= j && j < len(rightNodeSet) ==> !cmpStr(3, strval(leftNodeSet[i]), strval(rightNodeSet[j]))
+//@     invariant forall j Int :: 0 <= j && j <= #k ==> !cmpStr(3, strval(leftNodeSet[#outer + 1]), strval(rightNodeSet[j]))
+//@     decreases len(rightNodeSet) - #k
+//@   loop 2
+//@     invariant nodes(leftNodeSet) && nodes(rightNodeSet)
+//@     invariant 0 - 1 <= #k && #k < len(rightNodeSet) || (len(rightNodeSet) == 0 && #k == 0 - 1)
+//@     invariant forall j Int :: 0 <= j && j <= #k ==> !cmpNum(3, leftNumber, xpnum(strval(rightNodeSet[j])))
+//@     decreases len(rightNodeSet) - #k
+//@   loop 3
+//@     invariant nodes(leftNodeSet) && nodes(rightNodeSet)
+//@     invariant 0 - 1 <= #k && #k < len(leftNodeSet) || (len(leftNodeSet) == 0 && #k == 0 - 1)
+//@     invariant forall i Int :: 0 <= i && i <= #k ==> !cmpNum(3, xpnum(strval(leftNodeSet[i])), rightNumber)
+//@     decreases len(leftNodeSet) - #k
+//@   loop 4
+//@     invariant nodes(leftNodeSet) && nodes(rightNodeSet)
+//@     invariant 0 - 1 <= #k && #k < len(rightNodeSet) || (len(rightNodeSet) == 0 && #k == 0 - 1)
+//@     invariant forall j Int :: 0 <= j && j <= #k ==> !cmpStr(3, leftString, strval(rightNodeSet[j]))
+//@     decreases len(rightNodeSet) - #k
+//@   loop 5
+//@     invariant nodes(leftNodeSet) && nodes(rightNodeSet)
+//@     invariant 0 - 1 <= #k && #k < len(leftNodeSet) || (len(leftNodeSet) == 0 && #k == 0 - 1)
+//@     invariant forall i Int :: 0 <= i && i <= #k ==> !cmpStr(3, strval(leftNodeSet[i]), rightString)
+//@     decreases len(leftNodeSet) - #k
+
+//@ func execRelationalExprGreaterThan(context, expr) (err)
+//@   property C05 C13 C15
+//@   uses sem strbuilder
+//@   requires $HPRE$ && nt($B$) == NT_RelationalExprGreaterThan
+//@   modifies context.result
+//@   ensures $HPOSTE$                                                         @error-iff-specified
+//@   ensures $HPOSTV$                                                         @value-is-Sem
+//@   loop 0
+//@     invariant nodes(leftNodeSet) && nodes(rightNodeSet)
+//@     invariant 0 - 1 <= #k && #k < len(leftNodeSet) || (len(leftNodeSet) == 0 && #k == 0 - 1)
+//@     invariant forall i Int, j Int :: 0 <= i && i <= #k && 0 <= j && j < len(rightNodeSet) ==> !cmpStr(4, strval(leftNodeSet[i]), strval(rightNodeSet[j]))
+//@     decreases len(leftNodeSet) - #k
+//@   loop 1
+//@     invariant nodes(leftNodeSet) && nodes(rightNodeSet)
+//@     invariant 0 - 1 <= #k && #k < len(rightNodeSet) || (len(rightNodeSet) == 0 && #k == 0 - 1)
+//@     invariant 0 - 1 <= #outer && #outer + 1 < len(leftNodeSet)
+//@     invariant forall i Int, j Int :: 0 <= i && i <= #outer && 0 <= j && j < len(rightNodeSet) ==> !cmpStr(4, strval(leftNodeSet[i]), strval(rightNodeSet[j]))
+//@     invariant forall j Int :: 0 <= j && j <= #k ==> !cmpStr(4, strval(leftNodeSet[#outer + 1]), strval(rightNodeSet[j]))
+//@     decreases len(rightNodeSet) - #k
+//@   loop 2
+//@     invariant nodes(leftNodeSet) && nodes(rightNodeSet)
+//@     invariant 0 - 1 <= #k && #k < len(rightNodeSet) || (len(rightNodeSet) == 0 && #k == 0 - 1)
+//@     invariant forall j Int :: 0 <= j && j <= #k ==> !cmpNum(4, leftNumber, xpnum(strval(rightNodeSet[j])))
+//@     decreases len(rightNodeSet) - #k
+//@   loop 3
+//@     invariant nodes(leftNodeSet) && nodes(rightNodeSet)
+//@     invariant 0 - 1 <= #k && #k < len(leftNodeSet) || (len(leftNodeSet) == 0 && #k == 0 - 1)
+//@     invariant forall i Int :: 0 <= i && i <= #k ==> !cmpNum(4, xpnum(strval(leftNodeSet[i])), rightNumber)
+//@     decreases len(leftNodeSet) - #k
+//@   loop 4
+//@     invariant nodes(leftNodeSet) && nodes(rightNodeSet)
+//@     invariant 0 - 1 <= #k && #k < len(rightNodeSet) || (len(rightNodeSet) == 0 && #k == 0 - 1)
+//@     invariant forall j Int :: 0 <= j && j <= #k ==> !cmpStr(4, leftString, strval(rightNodeSet[j]))
+//@     decreases len(rightNodeSet) - #k
+//@   loop 5
+//@     invariant nodes(leftNodeSet) && nodes(rightNodeSet)
+//@     invariant 0 - 1 <= #k && #k < len(leftNodeSet) || (len(leftNodeSet) == 0 && #k == 0 - 1)
+//@     invariant forall i Int :: 0 <= i && i <= #k ==> !cmpStr(4, strval(leftNodeSet[i]), rightString)
+//@     decreases len(leftNodeSet) - #k
+
+//@ func execRelationalExprGreaterThanOrEqual(context, expr) (err)
+//@   property C05 C13 C15
+//@   uses sem strbuilder
+//@   requires $HPRE$ && nt($B$) == NT_RelationalExprGreaterThanOrEqual
+//@   modifies context.result
+//@   ensures $HPOSTE$                                                         @error-iff-specified
+//@   ensures $HPOSTV$                                                         @value-is-Sem
+//@   loop 0
+//@     invariant nodes(leftNodeSet) && nodes(rightNodeSet)
+//@     invariant 0 - 1 <= #k && #k < len(leftNodeSet) || (len(leftNodeSet) == 0 && #k == 0 - 1)
+//@     invariant forall i Int, j Int :: 0 <= i && i <= #k && 0 <= j && j < len(rightNodeSet) ==> !cmpStr(5, strval(leftNodeSet[i]), strval(rightNodeSet[j]))
+//@     decreases len(leftNodeSet) - #k
+//@   loop 1
+//@     invariant nodes(leftNodeSet) && nodes(rightNodeSet)
+//@     invariant 0 - 1 <= #k && #k < len(rightNodeSet) || (len(rightNodeSet) == 0 && #k == 0 - 1)
+//@     invariant 0 - 1 <= #outer && #outer + 1 < len(leftNodeSet)
+//@     invariant forall i Int, j Int :: 0 <= i && i <= #outer && 0 <= j && j < len(rightNodeSet) ==> !cmpStr(5, strval(leftNodeSet[i]), strval(rightNodeSet[j]))
+//@     invariant forall j Int :: 0 <= j && j <= #k ==> !cmpStr(5, strval(leftNodeSet[#outer + 1]), strval(rightNodeSet[j]))
+//@     decreases len(rightNodeSet) - #k
+//@   loop 2
+//@     invariant nodes(leftNodeSet) && nodes(rightNodeSet)
+//@     invariant 0 - 1 <= #k && #k < len(rightNodeSet) || (len(rightNodeSet) == 0 && #k == 0 - 1)
+//@     invariant forall j Int :: 0 <= j && j <= #k ==> !cmpNum(5, leftNumber, xpnum(strval(rightNodeSet[j])))
+//@     decreases len(rightNodeSet) - #k
+//@   loop 3
+//@     invariant nodes(leftNodeSet) && nodes(rightNodeSet)
+//@     invariant 0 - 1 <= #k && #k < len(leftNodeSet) || (len(leftNodeSet) == 0 && #k == 0 - 1)
+//@     invariant forall i Int :: 0 <= i && i <= #k ==> !cmpNum(5, xpnum(strval(leftNodeSet[i])), rightNumber)
+//@     decreases len(leftNodeSet) - #k
+//@   loop 4
+//@     invariant nodes(leftNodeSet) && nodes(rightNodeSet)
+//@     invariant 0 - 1 <= #k && #k < len(rightNodeSet) || (len(rightNodeSet) == 0 && #k == 0 - 1)
+//@     invariant forall j Int :: 0 <= j && j <= #k ==> !cmpStr(5, leftString, strval(rightNodeSet[j]))
+//@     decreases len(rightNodeSet) - #k
+//@   loop 5
+//@     invariant nodes(leftNodeSet) && nodes(rightNodeSet)
+//@     invariant 0 - 1 <= #k && #k < len(leftNodeSet) || (len(leftNodeSet) == 0 && #k == 0 - 1)
+//@     invariant forall i Int :: 0 <= i && i <= #k ==> !cmpStr(5, strval(leftNodeSet[i]), rightString)
+//@     decreases len(leftNodeSet) - #k
+
+//@ func execOrExprOr(context, expr) (err)
+//@   property C05 C13 C15
+//@   uses sem
+//@   requires $HPRE$ && nt($B$) == NT_OrExprOr
+//@   modifies context.result
+//@   ensures $HPOSTE$                                                         @error-iff-specified
+//@   ensures $HPOSTV$                                                         @value-is-Sem
+
+//@ func execAndExprAnd(context, expr) (err)
+//@   property C05 C13 C15
+//@   uses sem
+//@   requires $HPRE$ && nt($B$) == NT_AndExprAnd
+//@   modifies context.result
+//@   ensures $HPOSTE$                                                         @error-iff-specified
+//@   ensures $HPOSTV$                                                         @value-is-Sem
